@@ -198,10 +198,17 @@ func (l *lexer) scan() {
 		if l.src[0] == '#' && l.src[1] == '!' {
 			t := bytes.IndexByte(l.src, '\n')
 			if t == -1 {
-				t = len(l.src) - 1
+				line := l.src
+				l.emit(tokenShebangLine, len(line))
+				for _, c := range line {
+					if isStartChar(c) {
+						l.column++
+					}
+				}
+			} else {
+				l.emit(tokenShebangLine, t+1)
+				l.line++
 			}
-			l.emit(tokenShebangLine, t+1)
-			l.line++
 		}
 	}
 
@@ -640,9 +647,11 @@ func (l *lexer) scanCodeBlock(p int) (int, ast.Context) {
 	if p < len(l.src) {
 		switch l.src[p] {
 		case '\t':
+			l.column++
 			return p + 1, ast.ContextTabCodeBlock
 		case ' ':
 			if p+3 < len(l.src) && l.src[p+1] == ' ' && l.src[p+2] == ' ' && l.src[p+3] == ' ' {
+				l.column += 4
 				return p + 4, ast.ContextSpacesCodeBlock
 			}
 		}
